@@ -9,7 +9,7 @@ CONSTANTS
   MaxNow = 1
   MaxTx = 1
   MaxBal = 2
-  Kinds <- KindsSibM
+  Kinds <- KindsSibQ
   Ords <- OrdId3
   AliasSafe = FALSE
   Window = TRUE
